@@ -27,25 +27,29 @@ const (
 
 // Alphabets (ordered simplest first so that the first counterexample is the shortest).
 var (
-	opAddA     = MOp{K: "add", PID: 0x100, ST: stH264}
-	opAddB     = MOp{K: "add", PID: 0x101, ST: stAAC, Desc: "lang"}
-	opAddAuto  = MOp{K: "add", PID: 0, ST: stMeta, Desc: "sid"}
-	opRmA      = MOp{K: "rm", PID: 0x100}
-	opRmB      = MOp{K: "rm", PID: 0x101}
-	opRmX      = MOp{K: "rm", PID: 0x1ff}
-	opPcrA     = MOp{K: "pcr", PID: 0x100}
-	opPcrB     = MOp{K: "pcr", PID: 0x101}
-	opPcrX     = MOp{K: "pcr", PID: 0x1ff}
-	opTables   = MOp{K: "tables"}
-	opDataA1   = MOp{K: "data", PID: 0x100, Len: 10}
-	opDataAfit = MOp{K: "data", PID: 0x100, Len: 170}
-	opDataAs1  = MOp{K: "data", PID: 0x100, Len: 169}
-	opDataAs2  = MOp{K: "data", PID: 0x100, Len: 168}
-	opDataA3   = MOp{K: "data", PID: 0x100, Len: 454}
-	opDataA17  = MOp{K: "data", PID: 0x100, Len: 170 + 16*184}
-	opDataARAI = MOp{K: "data", PID: 0x100, Len: 50, AF: "raipcr"}
-	opDataAprv = MOp{K: "data", PID: 0x100, Len: 400, AF: "priv10"}
-	opDataAnor = MOp{K: "data", PID: 0x100, Len: 30, AF: "noroom"}
+	opAddA        = MOp{K: "add", PID: 0x100, ST: stH264}
+	opAddB        = MOp{K: "add", PID: 0x101, ST: stAAC, Desc: "lang"}
+	opAddAuto     = MOp{K: "add", PID: 0, ST: stMeta, Desc: "sid"}
+	opRmA         = MOp{K: "rm", PID: 0x100}
+	opRmB         = MOp{K: "rm", PID: 0x101}
+	opRmX         = MOp{K: "rm", PID: 0x1ff}
+	opPcrA        = MOp{K: "pcr", PID: 0x100}
+	opPcrB        = MOp{K: "pcr", PID: 0x101}
+	opPcrX        = MOp{K: "pcr", PID: 0x1ff}
+	opTables      = MOp{K: "tables"}
+	opDataA1      = MOp{K: "data", PID: 0x100, Len: 10}
+	opDataAfit    = MOp{K: "data", PID: 0x100, Len: 170}
+	opDataAs1     = MOp{K: "data", PID: 0x100, Len: 169}
+	opDataAs2     = MOp{K: "data", PID: 0x100, Len: 168}
+	opDataA3      = MOp{K: "data", PID: 0x100, Len: 454}
+	opDataA17     = MOp{K: "data", PID: 0x100, Len: 170 + 16*184}
+	opDataARAI    = MOp{K: "data", PID: 0x100, Len: 50, AF: "raipcr"}
+	opDataAprv    = MOp{K: "data", PID: 0x100, Len: 400, AF: "priv10"}
+	opDataAnor    = MOp{K: "data", PID: 0x100, Len: 30, AF: "noroom"}
+	opDataAnorPCR = MOp{K: "data", PID: 0x100, Len: 30, AF: "noroompcr"}
+	opDataAnorRAI = MOp{K: "data", PID: 0x100, Len: 30, AF: "noroomrai"}
+	opDataAnorSt  = MOp{K: "data", PID: 0x100, Len: 30, AF: "noroomstuff"}
+	opDataAnorStP = MOp{K: "data", PID: 0x100, Len: 200, AF: "noroomstuffpcr"}
 	// adaptation field sized so that the first packet holds exactly the PES header and no payload byte
 	opDataAhdr = MOp{K: "data", PID: 0x100, Len: 30, AF: "priv167"}
 	opDataB1   = MOp{K: "data", PID: 0x101, Len: 10, Hdr: "ptsdts"}
@@ -127,6 +131,7 @@ func MuxScenarios(thorough bool) []MuxScenario {
 		MuxScenario{Name: "fix-two-pids-p3", Period: 3, Setup: setupAB, Alpha: []MOp{opDataA1, opDataB17}, Depth: -1, Dedup: true},
 		MuxScenario{Name: "fix-failing-tables", Period: 40, Setup: setupA, Alpha: []MOp{opTables, opPcrX, opPcrA}, Depth: fixDepth, Dedup: true},
 		MuxScenario{Name: "fix-noroom-p2", Period: 2, Setup: setupA, Alpha: []MOp{opDataAnor, opDataA1, opTables}, Depth: -1, Dedup: true},
+		MuxScenario{Name: "noroom-kinds-p3", Period: 3, Setup: setupA, Alpha: []MOp{opDataAnor, opDataAnorPCR, opDataAnorRAI, opDataAnorSt, opDataAnorStP, opDataA1, opDataARAI}, Depth: 4, Dedup: true},
 		MuxScenario{Name: "fix-add-remove", Period: 40, Setup: setupA, Alpha: []MOp{opAddB, opRmB, opTables}, Depth: -1, Dedup: true},
 		MuxScenario{Name: "fix-readd-p1", Period: 1, Setup: setupA, Alpha: []MOp{opRmA, opAddA, opDataA1}, Depth: fixDepth, Dedup: true},
 		MuxScenario{Name: "readd-two-pids-p40", Period: 40, Setup: setupAB, Alpha: []MOp{opRmA, opAddA, opDataA1, opDataB1, opRmB, opAddB}, Depth: readdDepth, Dedup: true},
